@@ -67,6 +67,8 @@ def import_rules(chk, tier, pid, rules, why, floor, only=None):
 # Clauses of one property that are necessary conditions of another (applied by vcheck after the property's own rules; C01 and C02 list
 # theirs in their modules). (source property, rules, reason, counted instances on the pinned tree, instance filter)
 IMPORTS = {
+    "C01": [("C06", {"initial-state"}, "the eager reader starts from the neutral state", 2, lambda i: "(eager)" in i["fn"])],
+    "C02": [("C06", {"initial-state"}, "the eager reader starts from the neutral state", 2, lambda i: "(eager)" in i["fn"])],
     "C06": [("C07", {"sanitize-length", "length-provenance"}, "both readers derive the value length from the header in the same way", 36, None)],
     "C13": [("C11", {"extend-truncate", "value-truncate"}, "Truncate and Push* delegate to PrimitiveValue::truncate / extend_*", 30, None)],
     "C09": [("C03", {"vr-header-form", "header-layout", "header-bytes-read"}, "the meta group is written and read with the Explicit VR Little Endian codec", 85,
